@@ -4,6 +4,7 @@ the items in order; every number is printed by the number writer, every name / l
 quotes doubled.  Spec-language subset only (expressions, comprehensions, "".join)."""
 from praatio.utilities import my_math
 from praatio.utilities import utils
+from praatio.utilities import errors
 
 
 def num(x):
@@ -97,3 +98,22 @@ def klatt_point_tier(self):
              + [x for i, e in enumerate(self.entries)
                 for x in ["points [" + str(i + 1) + "]:", "    number = " + repr(e[0]), "    value = " + repr(e[1])]])
     return "\n".join(lines) + "\n"
+
+
+# ---- getTextgridAsStr (C02): the text formats are rendered from the dictionary that _prepTgForSaving hands over
+
+
+def textgrid_as_str(tg, format, includeBlankSpaces, minTimestamp=None, maxTimestamp=None, minimumIntervalLength=None):
+    """blank filling off: entries verbatim in time order, a span override becomes the file's span; the requested
+    format's grammar is applied to that dictionary; an unknown format is rejected before anything is changed"""
+    if format not in ("short_textgrid", "long_textgrid", "json", "textgrid_json"):
+        raise errors.WrongOption("format", format, ("short_textgrid", "long_textgrid", "json", "textgrid_json"))
+    for t in tg["tiers"]:
+        t["entries"] = sorted(t["entries"])
+    if minTimestamp is not None:
+        tg["xmin"] = minTimestamp
+    if maxTimestamp is not None:
+        tg["xmax"] = maxTimestamp
+    if format == "long_textgrid":
+        return long_textgrid(tg)
+    return short_textgrid(tg)
